@@ -387,3 +387,40 @@ func checkInsertIfAbsent(c *rt.Ctx, fn *ssa.Function, field string) {
 		}
 	}
 }
+
+// returnValues resolves the values a return yields, looking through the spill slots that go/ssa
+// introduces for functions with defer (`*slot = v; rundefers; t = *slot; return t`).
+func returnValues(r *ssa.Return) []ssa.Value {
+	out := make([]ssa.Value, len(r.Results))
+	for i, v := range r.Results {
+		out[i] = v
+		ld, ok := v.(*ssa.UnOp)
+		if !ok || ld.Op != token.MUL {
+			continue
+		}
+		al, ok := ld.X.(*ssa.Alloc)
+		if !ok {
+			continue
+		}
+		var last ssa.Value
+		for b := r.Block(); b != nil && last == nil; {
+			for _, in := range b.Instrs {
+				if in == ssa.Instruction(ld) {
+					break
+				}
+				if st, ok := in.(*ssa.Store); ok && st.Addr == ssa.Value(al) {
+					last = st.Val
+				}
+			}
+			if last == nil && len(b.Preds) == 1 {
+				b = b.Preds[0]
+			} else {
+				break
+			}
+		}
+		if last != nil {
+			out[i] = last
+		}
+	}
+	return out
+}
